@@ -90,6 +90,9 @@ class Ops(object):
         self.pyvc = pyvc
         self.path = interp.path
         self.hooks = interp.cfg.get("hooks")          # object with optional methods (lazy Expr support etc.)
+        if self.hooks is None:
+            from . import sbytes
+            self.hooks = sbytes.ByteHooks()
         self.contracts = interp.cfg.get("contracts", {})   # function object -> handler(ops, args, kwargs)
         self.force_native = interp.cfg.get("native", set())
         self.models = dict(_MODELS)
@@ -522,6 +525,8 @@ class Ops(object):
             return Or(*alts)
         if isinstance(cont, SymRange):
             return And(mk_cmp("le", cont.start, x), mk_cmp("lt", x, cont.stop))
+        if type(cont).__module__ == "builtins" and type(cont).__name__ in ("dict_keys", "dict_values", "dict_items"):
+            return self.contains(list(cont), x)
         if self.hooks is not None:
             r = self.hooks.contains(self, cont, x)
             if r is not None:
@@ -1848,5 +1853,5 @@ _MODELS = {
     functools.cmp_to_key: _m_cmp_to_key, functools.reduce: _m_reduce, itertools.product: _m_product,
     itertools.permutations: _m_permutations, itertools.combinations: _m_combinations, itertools.chain: _m_chain,
     callable: _m_callable, iter: _m_iter, next: _m_next, divmod: _m_divmod, pow: _m_pow, id: _m_id,
-    object.__new__: _m_object_new, operator.itemgetter: _m_itemgetter, ord: _m_ord, chr: _m_chr,
+    object.__new__: _m_object_new, slice: (lambda o, *a: slice(*a)), operator.itemgetter: _m_itemgetter, ord: _m_ord, chr: _m_chr,
 }
